@@ -107,9 +107,9 @@ func buildParser02(c Case02) url.Parser {
 		opts = append(opts, option02(o))
 	}
 	if c.Canon {
-		return canonicalizer.New(opts...)
+		return newProfile(opts)
 	}
-	return url.NewParser(opts...)
+	return newParser(opts)
 }
 
 // touch calls every getter; any of them panicking is a violation.
@@ -162,12 +162,17 @@ func describe02(c Case02, upto int) string {
 			s += fmt.Sprintf(" ; r%d.params.%s", o.Reg, o.SP.String())
 		case "setparams":
 			s += fmt.Sprintf(" ; r%d.SetSearchParams(r%d.SearchParams())", o.Reg, o.Reg2)
+		case "iterate":
+			s += fmt.Sprintf(" ; r%d.params.Iterate(%s)", o.Reg, iterateCallbacks[o.Set%len(iterateCallbacks)])
 		default:
 			s += fmt.Sprintf(" ; r%d.%s", o.Reg, o.Kind)
 		}
 	}
 	return s
 }
+
+// iterateCallbacks names what the callback handed to SearchParams.Iterate does on every visit.
+var iterateCallbacks = []string{"edit value", "clear name", "delete the visited name", "append", "set the visited name", "sort", "read", "SetSearch(\"\")", "SetSearch(k=v&k=w)"}
 
 func clip(s string) string {
 	if len(s) > 80 {
@@ -270,7 +275,41 @@ func Check02(c Case02, r *core.Rec) {
 					mutated = true
 				}
 			case "iterate":
-				x.SearchParams().Iterate(func(p *url.NameValuePair) { p.Value += "x" })
+				// the callback edits the pair, or calls back into the same list while the iteration is
+				// under way (a nested sequence of SearchParams calls; each must return, whatever it
+				// means for the pairs not yet visited); calls from callbacks are capped so that a
+				// callback appending on every visit is not itself an unbounded program
+				sp, calls := x.SearchParams(), 0
+				sp.Iterate(func(p *url.NameValuePair) {
+					calls++
+					if calls > 64 || p == nil {
+						// (a re-entrant Set leaves nil in the slots it vacated, and the iteration under
+						// way hands them to the callback; the callback tolerates that — only a panic or
+						// a hang inside the library counts)
+						return
+					}
+					switch o.Set % len(iterateCallbacks) {
+					case 0:
+						p.Value += "x"
+					case 1:
+						p.Name = ""
+					case 2:
+						sp.Delete(p.Name)
+					case 3:
+						sp.Append(p.Name, "y")
+					case 4:
+						sp.Set(p.Name, "z")
+					case 5:
+						sp.Sort()
+					case 6:
+						_ = sp.GetAll(p.Name)
+						_ = sp.String()
+					case 7:
+						x.SetSearch("")
+					case 8:
+						x.SetSearch("k=v&k=w")
+					}
+				})
 				mutated = true
 			case "setparams":
 				y := regs[o.Reg2%len(regs)]
@@ -339,7 +378,7 @@ func genOpt02(t *rapid.T, name string) Opt16 {
 	case "pre-host", "post-host":
 		o.Str = gen.Pick(t, "hostfunc", []string{"identity", "trim-dots", "lower", "constant", "empty", "ipv6", "garbage", "getters"})
 	case "sort-query":
-		o.Sort = rapid.IntRange(0, 2).Draw(t, "sortmode")
+		o.Sort = rapid.IntRange(-2, 5).Draw(t, "sortmode") // values outside the three named constants are constructible (SortParameter + 1)
 	case "default-scheme":
 		o.Str = gen.Pick(t, "defscheme", []string{"http", "https", "foo", "", "9x", "file"})
 	case "path-set", "query-set", "special-query-set", "fragment-set", "special-fragment-set":
@@ -457,7 +496,7 @@ func Gen02(t *rapid.T) Case02 {
 			case 1:
 				c.Ops = append(c.Ops, Op02{Kind: "spclone", Reg: reg})
 			case 2:
-				c.Ops = append(c.Ops, Op02{Kind: "iterate", Reg: reg})
+				c.Ops = append(c.Ops, Op02{Kind: "iterate", Reg: reg, Set: rapid.IntRange(0, len(iterateCallbacks)-1).Draw(t, "jcallback")})
 			case 3:
 				c.Ops = append(c.Ops, Op02{Kind: "sp", Reg: reg, SP: SPOp{Op: gen.Pick(t, "jspop", []string{"append", "string", "sort", "set", "delete"}), Name: "k", Value: "v"}})
 			case 4:
@@ -496,6 +535,8 @@ func Gen02(t *rapid.T) Case02 {
 			}
 		case "setparams":
 			o.Reg2 = rapid.IntRange(0, 5).Draw(t, "reg2")
+		case "iterate":
+			o.Set = rapid.IntRange(0, len(iterateCallbacks)-1).Draw(t, "callback")
 		case "encode", "decode":
 			o.Value = B(genArg02(t, "value"))
 			o.Set = rapid.IntRange(0, len(NamedSets)-1).Draw(t, "set")
